@@ -50,6 +50,7 @@ Menu == <<
   [c |-> "str_shl",     api |-> "str",        kind |-> "pure",  m |-> 0, ex |-> FALSE],  \* Intel rendering of the shared instruction
   [c |-> "att_shl",     api |-> "str_att",    kind |-> "pure",  m |-> 0, ex |-> FALSE],  \* AT&T rendering of the same object
   [c |-> "lift_shl",    api |-> "lift",       kind |-> "pure",  m |-> 0, ex |-> FALSE],  \* get_instr_expr on the same object
+  [c |-> "str_sse",     api |-> "str",        kind |-> "pure",  m |-> 0, ex |-> FALSE],  \* Intel rendering of a shared SSE instruction with a mandatory prefix (f3 0f 10 c1)
   [c |-> "simp_T",      api |-> "expr_simp",  kind |-> "pure",  m |-> 0, ex |-> FALSE],  \* shared tree over eax, w
   [c |-> "simp_S",      api |-> "expr_simp",  kind |-> "pure",  m |-> 0, ex |-> FALSE],  \* expr_simp(expr_simp(T))
   [c |-> "simp_C",      api |-> "expr_simp",  kind |-> "pure",  m |-> 0, ex |-> FALSE],  \* shared tree with adjacent slices of one source in a composition (slice fusion)
@@ -64,6 +65,7 @@ Menu == <<
   [c |-> "emul_pp_m1",  api |-> "emul_lines", kind |-> "write", m |-> 1, ex |-> FALSE],  \* push eax; pop ebx
   [c |-> "emul_es_m1",  api |-> "emul_lines", kind |-> "write", m |-> 1, ex |-> FALSE],  \* mov eax, es (es absent from m1)
   [c |-> "emul_sete_m1", api |-> "emul_lines", kind |-> "write", m |-> 1, ex |-> FALSE], \* mov es, ebx (binds es in m1)
+  [c |-> "emul_rep67_m2", api |-> "emul_lines", kind |-> "write", m |-> 2, ex |-> FALSE], \* 67 f3 aa (rep stosb, 16-bit address size) with ecx bound to the shared constant K
   [c |-> "emul_div_m2", api |-> "emul_lines", kind |-> "write", m |-> 2, ex |-> TRUE]    \* div ebx with ebx = 0: raises inside eval_instr
 >>
 N == Len(Menu)
@@ -84,7 +86,7 @@ AllCalls == Menu \o Extra
 (* literals (byte strings, text lines), the shared instruction objects, the shared identifier w, the      *)
 (* shared trees T, U, Q, the program counter constant, the module-level register expressions of ia32_sem, *)
 (* and the one piece of interpreter-wide state every later import of the client depends on: sys.path      *)
-Fixtures == <<"lit", "I_shl", "I_add", "I_push", "I_pop", "I_moves", "I_sete", "I_div", "w", "T", "U", "Q", "C", "pc", "regs", "sys.path">>
+Fixtures == <<"lit", "I_shl", "I_add", "I_push", "I_pop", "I_moves", "I_sete", "I_div", "I_sse", "I_rep67", "K", "w", "T", "U", "Q", "C", "pc", "regs", "sys.path">>
 ASSUME PrintT("MENU " \o ToJson([calls |-> AllCalls, n |-> N, fixtures |-> Fixtures]))
 
 VARIABLES cfg,    \* cache configuration of the process that runs the history
